@@ -216,6 +216,15 @@ def c20(run, replay):
     for _ in range(40 if thorough else 12):
         calls = [{"len": rnd.choice(C20_LENS[:11]), "pattern": rnd.choice(C20_PATTERNS), "src": "mem"} for _ in range(rnd.choice([2, 3]))]
         scen.append({"transport": rnd.choice(["ws", "http"]), "order": "free", "calls": calls})
+    # a reader that knows its size, handed over partly consumed
+    for src in ("partbytes", "partstr", "section"):
+        for tr in (("ws", "http") if thorough else (rnd.choice(["ws", "http"]),)):
+            scen.append({"transport": tr, "order": "free", "calls": [{"len": rnd.choice([1, 100, 5000]), "pattern": rnd.choice(["readall", "pasteof"]), "src": src}]})
+    # a handler that keeps reading after EOF while the next call's upload (which arrived after its own was complete) is being consumed
+    for tr in ("ws", "http"):
+        for L2 in ([64, 5000] if thorough else [rnd.choice([64, 5000])]):
+            scen.append({"transport": tr, "order": "free", "calls": [{"len": 100, "pattern": "pasteofpeer", "src": "mem"},
+                                                                   {"len": L2, "pattern": "small", "src": "slow", "after_eof_of": 1}]})
     # handlers that wait for each other before reading: every upload must be able to proceed independently
     for k in ([3, 4, 4] if thorough else [3, 4]):
         scen.append({"transport": rnd.choice(["ws", "http"]), "order": "free",
@@ -589,6 +598,8 @@ CHAN_POINTS = ["chanh.add.pre", "chanh.add", "chanh.val", "chanh.close", "chanh.
 
 def perturb(rnd, scen, points, frac=0.5):
     for s in scen:
+        if max(s["args"].get("lens") or [0]) > 5000:
+            continue        # tens of thousands of values, each passing several hook points: the delays would only stretch the run
         if rnd.random() < frac:
             s["args"]["p"] = rnd.choice([0.2, 0.5, 0.8])
             s["args"]["delay"] = rnd.sample(points, 6)
@@ -623,6 +634,11 @@ def c06(run, replay):
             scen.append({"sc": "c06.cancel", "args": {"cancel": sub, "instant": inst, "transport": "http"}})
     scen.append({"sc": "c06.cancel", "args": {"cancel": [], "instant": "running"}})
     perturb(rnd, scen, CHAN_POINTS)
+    # server side (SrvConn.tla): a cancel frame cancels exactly the call it names; a variant that cancels every handler must be caught
+    run.model_check(wd, "SrvConnMC.tla", "SrvConn_liveS.cfg", timeout=900)
+    r = run.tlc(wd, "SrvConnMC.tla", "SrvConn_cancelany.cfg", timeout=600, tag="model_runs")
+    if r["violated"] not in ("CancelHasCause", "CancelExact"):
+        raise vp.ToolFailure("self-test: SrvConn with a cancel-everything executor should violate CancelHasCause / CancelExact, got %s" % r["violated"])
     trace, viol = run_ws_scenarios(run, wd, scen, "c06", timeout=3000)
     report_ws(run, trace, viol, "C06", scen, "cancel")
     run.cov["distinct_nontrivial"] = len(set(json.dumps(s, sort_keys=True) for s in scen))
@@ -649,14 +665,14 @@ def stream_scenarios(rnd, thorough):
         scen.append({"sc": "c07.stream", "args": {"lens": [8, 8, 8, 8], "consumers": ["fast"] * 4, "closeorder": list(o), "unary": 1, "staged": True}})
     scen.append({"sc": "c07.stream", "args": {"lens": [10, 10, 10, 10, 10], "consumers": ["fast"] * 5, "closeorder": rnd.sample([3, 13, 23, 33, 43], 5), "unary": 1, "staged": True}})
     # far beyond every internal buffer size, with a subscriber that never reads
-    scen.append({"sc": "c07.stream", "args": {"lens": [70000 if thorough else 18000, 20], "consumers": ["stalled", "fast"], "unary": 3, "quietwire": True, "waitms": 20000}})
+    scen.append({"sc": "c07.stream", "args": {"lens": [70000, 20], "consumers": ["stalled", "fast"], "unary": 3, "quietwire": True, "waitms": 20000}})
     return scen
 
 
 @check("C07")
 def c07(run, replay):
     run.assumptions += [
-        "stream lengths 0, 1, 33, 300 (beyond the 32-slot sink and the 256-slot executor queue) and 18000 / 70000 unread values; consumers fast, slow "
+        "stream lengths 0, 1, 33, 300 (beyond the 32-slot sink and the 256-slot executor queue) and 70000 unread values; consumers fast, slow "
         "and stalled; 3-5 concurrent streams closed by their handlers in every order; unary calls interleaved",
         "wire order (response announcing a channel before its first value) is judged by the frame-aware proxy",
         "handlers start sending immediately after returning the channel (no pacing), so 'however early' is exercised by every scenario",
@@ -666,6 +682,12 @@ def c07(run, replay):
     rnd = random.Random(run.seed)
     run.model_check(wd, "WsRpc.tla", "WsRpc_c07.cfg", timeout=2400)
     scen = perturb(rnd, stream_scenarios(rnd, thorough), CHAN_POINTS, 0.4)
+    # server side (SrvConn.tla): the response announcing a channel is written before that channel's first value
+    r = run.tlc(wd, "SrvConnMC.tla", "SrvConn_valbeforeresp.cfg", timeout=600, tag="model_runs")
+    if r["violated"] != "StreamOrdered":
+        raise vp.ToolFailure("self-test: SrvConn with a forwarder that forwards before responding should violate StreamOrdered, got %s" % r["violated"])
+    if thorough:
+        run.model_check(wd, "SrvConnMC.tla", "SrvConn_SS.cfg", timeout=2400)
     trace, viol = run_ws_scenarios(run, wd, scen, "c07", timeout=3000)
     report_ws(run, trace, viol, "C07", scen, "stream")
     binding_pass(run, wd, [s for s in scen if max(s["args"].get("lens") or [0]) <= 200], "c07", limit=6 if not thorough else 30)
@@ -840,6 +862,8 @@ def c14(run, replay):
             args["delay"] = ["wl.enter"] + rnd.sample(["fwd.val", "fwd.close", "fwd.reg", "h.resp.pre", "lazy.acquire.pre", "write.req.pre", "ctxasync.done",
                                                         "cancel.enq.pre", "redial.swap"], 3)
         scen.append({"sc": "c14.writers", "args": args})
+    for i in range(6 if thorough else 3):    # many cancel frames written at the same instant, next to large requests
+        scen.append({"sc": "c14.writers", "args": {"rounds": 1, "n": 4, "reconnect": False, "pingus": 800, "procs": 0, "burst": rnd.choice([12, 24])}})
     trace, viol = run_ws_scenarios(run, wd, scen, "c14", hooks=True, timeout=3000)
     report_ws(run, trace, viol, "C14", scen, "writers")
     run.cov["wire_frames_parsed"] = sum(1 for e in trace if e.get("ev") == "WireFrame")
@@ -870,6 +894,13 @@ def c15(run, replay):
         r = run.tlc(wd, "ServerConn.tla", cfg, timeout=600, tag="model_runs")
         if r["violated"] != "NothingRetained":
             raise vp.ToolFailure("self-test: %s should violate NothingRetained, got %s" % (cfg, r["violated"]))
+    # the whole life of a server-side connection (SrvConn.tla): safety for every 2-handler mix, teardown liveness under fairness
+    for cfg in (("SrvConn_US.cfg", "SrvConn_SN.cfg", "SrvConn_PU.cfg", "SrvConn_UPn.cfg", "SrvConn_SS.cfg") if thorough else ("SrvConn_PU.cfg",)):
+        run.model_check(wd, "SrvConnMC.tla", cfg, timeout=2400)
+    run.model_check(wd, "SrvConnMC.tla", "SrvConn_live.cfg" if thorough else "SrvConn_liveS.cfg", timeout=2400)
+    r = run.tlc(wd, "SrvConnMC.tla", "SrvConn_noexitcancel.cfg", timeout=600, tag="model_runs")
+    if r["violated"] != "ReturnedClean":
+        raise vp.ToolFailure("self-test: SrvConn whose exit path forgets the handlers should violate ReturnedClean, got %s" % r["violated"])
     kinds = ["unary", "notify", "stream", "big", "reverse"]
     scen = []
     for cause in ("graceful", "fin", "rst", "srvcancel"):
@@ -885,6 +916,8 @@ def c15(run, replay):
             scen.append({"sc": "c15.end", "args": {"cause": cause, "mix": ["unary"], "gatereader": True, "reverse": True}})
             scen.append({"sc": "c15.end", "args": {"cause": cause, "mix": ["stream", "notify"], "gatereader": True, "reverse": True}})
         scen.append({"sc": "c15.end", "args": {"cause": cause, "mix": ["unary"], "bigblocked": True, "reverse": True}})
+        # ... and streaming handlers hand over their channels while the forwarder cannot make progress
+        scen.append({"sc": "c15.end", "args": {"cause": cause, "mix": ["stream"], "bigblocked": True, "latesubs": 2, "reverse": True}})
     perturb(rnd, [s for s in scen if not s["args"].get("gatereader")], ["rd.msg.pre", "rd.next.pre", "main.incoming", "main.ctxdone", "closeinflight.pre", "closechans.pre", "exec.pop", "lazy.acquire.pre",
                         "h.resp.pre", "fwd.exit", "fwd.val", "handling.add", "call.spawn", "ws.done"], 0.5)
     trace, viol = run_ws_scenarios(run, wd, scen, "c15", timeout=3000)
@@ -984,6 +1017,7 @@ def binding_pass(run, wd, scen, tag, selftest=True, limit=None, client=True):
         scen = scen[:limit]
     if not scen:
         return
+    selftest = selftest and not run.violations      # the self-test demonstrates the binding on a tree the verdict pass found nothing on
     sf = os.path.join(wd, "bscen_%s.ndjson" % tag)
     with open(sf, "w") as f:
         for s in scen:
@@ -1165,7 +1199,9 @@ def srv_binding(run, wd, per, scen, tag, selftest=True):
     run.cov["traces_validated_against_impl"] += total - rejected
     if selftest and segs:
         # one logged field corrupted / one hook's events removed -> must be rejected
-        base = [s for s in segs if any(l["e"] == "call.spawn" and l["id"] >= 0 for l in s[1]) and len(s[1][0]["unary"]) + len(s[1][0]["sub"]) >= 2][:1]
+        # (a segment in which later events depend on the ones removed: a response that was written, seen on the wire, and its call finished)
+        base = [s for s in cur if any(l["e"] == "call.spawn" and l["id"] >= 0 for l in s[1]) and len(s[1][0]["unary"]) + len(s[1][0]["sub"]) >= 2
+                and any(l["e"] == "handling.done" for l in s[1]) and any(l["e"] == "wire" and l["k"] == "resp" for l in s[1])][:1] if rounds < 8 else []
         ok = True
         if base:
             i, sg = base[0]
